@@ -4,6 +4,7 @@ package harness
 
 import (
 	"fmt"
+	"math"
 	"testing"
 
 	"github.com/tidwall/geojson/geometry"
@@ -399,7 +400,145 @@ func c19Subs() []fw.Sub {
 			Gen:   c19GenSegSeg,
 			Check: c19CheckSegSeg,
 		},
+		fw.Prop[c19Dbl]{
+			Name: "doubles-identities",
+			Checks: func(tier string) int {
+				if tier == "thorough" {
+					return 1500000
+				}
+				return 100000
+			},
+			Gen:   c19GenDbl,
+			Check: c19CheckDbl,
+		},
 	}
 }
 
 func TestC19(t *testing.T) { fw.Main(t, "C19", c19Subs(), nil) }
+
+// --- identities that hold for arbitrary doubles ---------------------------------------------------------
+//
+// The exact oracle needs lattice coordinates.  A few facts are decidable for any doubles by comparisons alone,
+// and the kernels owe them to every caller: two segments that share an end point (bit for bit) intersect, in
+// both operand orders; a segment contains its own ends, itself, and intersects itself; a point outside a
+// segment's bounding box is neither on it nor contained in it; a point level with or above the top end, below
+// the bottom end, or at or right of the right end is not crossed by the ray; segments with disjoint boxes do
+// not intersect.  Decimals such as 7.7 or 2.4, integers beyond 2^26, 2^53 and denormals are where a formula
+// that is exact on small grids stops being exact.
+
+type c19Dbl struct {
+	S [4]F `json:"s"` // ax, ay, bx, by
+	T [4]F `json:"t"`
+	P [2]F `json:"p"`
+}
+
+var c19DblPool = []float64{0, math.Copysign(0, -1), 1, -1, 0.1, 0.2, 0.3, 0.7, 0.8, 1.1, 2.3, 2.4, 3, 3.3, 7.7, 8.7, 9.9, 1e-5, 123.456, -179.9999999,
+	1e6 + 0.5, 5e7 + 1, 67108865, 1 << 40, 9007199254740991, 9007199254740992, 1e15 + 0.25, 5e-324, 1e-310, 2.2250738585072014e-308, 1e300, -1e300, 22, 15, 25, 7}
+
+func genDbl(t *rapid.T, label string) F {
+	switch rapid.IntRange(0, 4).Draw(t, label+"_m") {
+	case 0:
+		return F(rapid.Float64Range(-200, 200).Draw(t, label+"_f"))
+	case 1:
+		v := rapid.SampledFrom(c19DblPool).Draw(t, label+"_pn")
+		for i := rapid.IntRange(1, 2).Draw(t, label+"_ulps"); i > 0; i-- {
+			v = math.Nextafter(v, math.Inf(1-2*rapid.IntRange(0, 1).Draw(t, label+"_dir")))
+		}
+		return F(v)
+	}
+	v := rapid.SampledFrom(c19DblPool).Draw(t, label+"_p")
+	if rapid.Bool().Draw(t, label+"_neg") {
+		v = -v
+	}
+	return F(v)
+}
+
+func c19GenDbl(t *rapid.T) c19Dbl {
+	var c c19Dbl
+	for i := range c.S {
+		c.S[i] = genDbl(t, fmt.Sprintf("s%d", i))
+		c.T[i] = genDbl(t, fmt.Sprintf("t%d", i))
+	}
+	c.P = [2]F{genDbl(t, "px"), genDbl(t, "py")}
+	switch rapid.IntRange(0, 5).Draw(t, "share") {
+	case 0:
+		c.T[0], c.T[1] = c.S[0], c.S[1] // A == A
+	case 1:
+		c.T[2], c.T[3] = c.S[2], c.S[3] // B == B
+	case 2:
+		c.T[0], c.T[1] = c.S[2], c.S[3] // chain
+	case 3:
+		c.T[2], c.T[3] = c.S[0], c.S[1]
+	}
+	switch rapid.IntRange(0, 5).Draw(t, "pmode") {
+	case 0: // one ulp past an end, on the same vertical / horizontal
+		c.P = [2]F{c.S[2], F(math.Nextafter(float64(c.S[3]), math.Inf(1-2*rapid.IntRange(0, 1).Draw(t, "pdir"))))}
+	case 1:
+		c.P = [2]F{F(math.Nextafter(float64(c.S[0]), math.Inf(1-2*rapid.IntRange(0, 1).Draw(t, "pdir2")))), c.S[1]}
+	case 2: // on the diagonal of the segment's direction, just past the far end
+		c.P = [2]F{F(math.Nextafter(float64(c.S[2]), math.Inf(1))), F(math.Nextafter(float64(c.S[3]), math.Inf(1)))}
+	}
+	return c
+}
+
+func c19CheckDbl(c c19Dbl) fw.Outcome {
+	pt := func(x, y F) geometry.Point { return geometry.Point{X: float64(x), Y: float64(y)} }
+	s := geometry.Segment{A: pt(c.S[0], c.S[1]), B: pt(c.S[2], c.S[3])}
+	u := geometry.Segment{A: pt(c.T[0], c.T[1]), B: pt(c.T[2], c.T[3])}
+	p := pt(c.P[0], c.P[1])
+	for _, v := range []float64{s.A.X, s.A.Y, s.B.X, s.B.Y, u.A.X, u.A.Y, u.B.X, u.B.Y, p.X, p.Y} {
+		if math.IsNaN(v) || math.IsInf(v, 0) {
+			return fw.Outcome{Label: "non-finite", Skip: true}
+		}
+	}
+	label := "doubles"
+	// a segment and its own ends
+	for _, e := range []geometry.Point{s.A, s.B} {
+		if r := s.Raycast(e); !r.On {
+			return fw.Failf(label, "Segment%v.Raycast(its own end %v).On = false", s, e)
+		}
+		if !s.ContainsPoint(e) || !s.CollinearPoint(e) {
+			return fw.Failf(label, "Segment%v: ContainsPoint / CollinearPoint of its own end %v is false", s, e)
+		}
+	}
+	if !s.ContainsSegment(s) || !s.IntersectsSegment(s) {
+		return fw.Failf(label, "Segment%v does not contain / intersect itself", s)
+	}
+	rev := geometry.Segment{A: s.B, B: s.A}
+	if !s.IntersectsSegment(rev) || !rev.IntersectsSegment(s) || !s.ContainsSegment(rev) {
+		return fw.Failf(label, "Segment%v and the same segment reversed: intersects / contains is false", s)
+	}
+	// shared end points
+	shared := s.A == u.A || s.A == u.B || s.B == u.A || s.B == u.B
+	if shared {
+		label = "doubles/shared-end"
+		if !s.IntersectsSegment(u) || !u.IntersectsSegment(s) {
+			return fw.Failf(label, "Segment%v and Segment%v share an end point but IntersectsSegment = %v / %v", s, u, s.IntersectsSegment(u), u.IntersectsSegment(s))
+		}
+	}
+	// boxes
+	sr, ur := s.Rect(), u.Rect()
+	if !sr.IntersectsRect(ur) && (s.IntersectsSegment(u) || u.IntersectsSegment(s)) {
+		return fw.Failf(label, "Segment%v and Segment%v have disjoint bounding boxes but intersect", s, u)
+	}
+	if !sr.ContainsPoint(p) {
+		if label == "doubles" {
+			label = "doubles/point-outside-box"
+		}
+		if r := s.Raycast(p); r.On || s.ContainsPoint(p) {
+			return fw.Failf(label, "point %v is outside the bounding box of Segment%v but Raycast.On = %v, ContainsPoint = %v", p, s, r.On, s.ContainsPoint(p))
+		}
+		if s.ContainsSegment(geometry.Segment{A: p, B: p}) || s.ContainsSegment(geometry.Segment{A: s.A, B: p}) {
+			return fw.Failf(label, "Segment%v contains a segment that ends at %v, outside its bounding box", s, p)
+		}
+	}
+	// where the ray cannot cross
+	lo, hi := math.Min(s.A.Y, s.B.Y), math.Max(s.A.Y, s.B.Y)
+	if r := s.Raycast(p); r.In && (p.Y < lo || p.Y >= hi || p.X >= math.Max(s.A.X, s.B.X)) {
+		return fw.Failf(label, "Segment%v.Raycast(%v).In = true although the point is not level with the half-open height range or lies at / right of the right end", s, p)
+	}
+	if r := s.Raycast(p); !r.In && !r.On && p.Y >= lo && p.Y < hi && p.X < math.Min(s.A.X, s.B.X) {
+		return fw.Failf(label, "Segment%v.Raycast(%v).In = false although the point is level with the half-open height range and left of the whole segment", s, p)
+	}
+	return fw.OK(label, shared || !sr.ContainsPoint(p))
+}
